@@ -123,7 +123,9 @@ def final_coverage(ctx, mc):
     if lastc:
         ctx.notes[:] = [n for n in ctx.notes if not n.startswith("zero-coverage actions in MC_Import")]
         ctx.cov["action_coverage"] = lastc
-        zero = sorted(a for a, n in lastc.items() if n == 0 and a != "Init")
+        # `Conflict` belongs to the conflicts-allowed family, which has its own exhaustive cfg (MC_Import_conflict.cfg); it is
+        # switched off (constant Conflicts = FALSE) in the main cfg, so zero coverage there is by construction, not vacuity
+        zero = sorted(a for a, n in lastc.items() if n == 0 and a not in ("Init", "Conflict"))
         if zero:
             raise Inconclusive("actions never taken in the exhaustive run: %s" % zero)
 
